@@ -9,6 +9,7 @@ import JunoModel.C01.ModelStateL
 import JunoModel.C01.ModelChain
 import JunoModel.C01.ModelMigrate
 import JunoModel.C01.ModelLegacyState
+import JunoModel.C01.ModelEnc
 /-!
 Line-protocol driver for the C01 models (`lake build c01drv`).
 
@@ -69,6 +70,18 @@ Requests (one per line, answers one line each):
                                     per-field buckets, leaf recomputed after every single change, ModelLegacyState.lean) -> ok
   yblock <id> <pre014> item...      State.Update + Commitment -> <root term> F:<addr>:<class>:<nonce|->... | rejected
                                     (the ContractClassHash / ContractNonce buckets afterwards, sorted by address)
+  byte level (ModelEnc.lean; felts / heights as hex numbers, byte strings as hex, `-` = empty):
+  erec <nonce> <class> <sroot> <height>   stateContract.MarshalBinary                       -> <bytes>
+  drec <bytes>                            stateContract.UnmarshalBinary  -> ok <nonce> <class> <sroot> <height> | err
+  epath <len> <val> / dpath <bytes>       trie2 BitArray.Write / UnmarshalBinary            -> <bytes> / ok <len> <val> | err
+  epathl <len> <val> / dpathl <bytes>     core/trie BitArray.Write / UnmarshalBinary        -> <bytes> / ok <len> <val> <used> | err
+  enode L <v> | B <l> <r> | E <c> <plen> <pval>      trienode.EncodeNode                      -> <bytes>
+  dnode <pathLen> <maxLen> <bytes>        trienode.DecodeNode -> L:<v> | B:<l>:<r> | E:<c>:<plen>:<pval> | err:<class>
+  elnode <v> <kids: - | ll:lv:rl:rv> <hashes: - | lh:rh>    core/trie Node.WriteTo           -> <bytes>
+  dlnode <bytes>                          core/trie Node.UnmarshalBinary -> ok <v> <kids> <hashes> | err:<class>
+  ekey <bucket> <owner> <leaf 0|1> <len> <val>   trieutils.nodeKeyByPath (bucket as a decimal byte, owner 0 = none)   -> <bytes>
+  ldump <id>                              the storage of the legacy trie model: root key, then every node sorted by
+                                          (key length, key)  -> R:<len>:<key>|R:- N:<len>:<key>:<value term>:<left len>.<left>|-:<right…>|- ...
 Terms are printed in prefix form: f<hex> | P(a,b) | S(a,b) | T(a,b,c) | A(t,<hex>).
 -/
 open Juno.Proto Juno.C01
@@ -183,8 +196,138 @@ def recsStr (recs : State.AList StateM.RecM) : String :=
   " ".intercalate (live.toList.map (fun e =>
     "R:" ++ natToHex (pathNat e.1) ++ ":" ++ termStr e.2.cls ++ ":" ++ termStr e.2.nonce ++ ":" ++ termStr e.2.sroot))
 
+/-! byte-level requests (`ModelEnc.lean`) -/
+def bytesStr (bs : List Nat) : String := bytesToHex (bs.map UInt8.ofNat)
+def bytesOf? (s : String) : Option (List Nat) := (hexToBytes? s).map (·.map UInt8.toNat)
+def optPathStr : Option Path → String
+  | none => "-"
+  | some p => toString p.length ++ "." ++ natToHex (pathNat p)
+
+def decErrStr : Enc.DecErr → String
+  | .empty => "empty" | .pathLen => "pathlen" | .binSize => "binsize" | .binTail => "bintail"
+  | .edgeSize => "edgesize" | .badPath => "badpath" | .unknownType => "panic" | .childType => "panic-child"
+
+def ldecErrStr : Enc.LDecErr → String
+  | .short => "short" | .badLeft => "left" | .badRight => "right" | .hashSize => "hashsize"
+
+def stepE (s : St) (ws : List String) : Option (St × String) :=
+  match ws with
+  | ["erec", n, c, r, h] =>
+    match hexToNat? n, hexToNat? c, hexToNat? r, hexToNat? h with
+    | some n, some c, some r, some h => some (s, bytesStr (Enc.encodeRec ⟨n, c, r, h⟩))
+    | _, _, _, _ => some (s, "bad-op")
+  | ["drec", b] =>
+    match bytesOf? b with
+    | some bs =>
+      match Enc.decodeRec bs with
+      | some r => some (s, "ok " ++ natToHex r.nonce ++ " " ++ natToHex r.cls ++ " " ++ natToHex r.sroot ++ " " ++ natToHex r.height)
+      | none => some (s, "err")
+    | none => some (s, "bad-op")
+  | ["epath", l, v] =>
+    match l.toNat?, hexToNat? v with
+    | some l, some v => if l > 255 ∨ v ≥ 2 ^ l then some (s, "bad-op") else some (s, bytesStr (Enc.encodePath (natToPath l v)))
+    | _, _ => some (s, "bad-op")
+  | ["ekey", b, o, lf, l, v] =>
+    match b.toNat?, hexToNat? o, lf.toNat?, l.toNat?, hexToNat? v with
+    | some b, some o, some lf, some l, some v =>
+      if l > 255 ∨ v ≥ 2 ^ l ∨ b > 255 then some (s, "bad-op")
+      else some (s, bytesStr (Enc.nodeKey b o (lf != 0) (natToPath l v)))
+    | _, _, _, _, _ => some (s, "bad-op")
+  | ["dpath", b] =>
+    match bytesOf? b with
+    | some bs =>
+      match Enc.decodePathRaw bs with
+      | some (l, v) => some (s, "ok " ++ toString l ++ " " ++ natToHex v)
+      | none => some (s, "err")
+    | none => some (s, "bad-op")
+  | ["epathl", l, v] =>
+    match l.toNat?, hexToNat? v with
+    | some l, some v => if l > 255 ∨ v ≥ 2 ^ l then some (s, "bad-op") else some (s, bytesStr (Enc.encodePathL (natToPath l v)))
+    | _, _ => some (s, "bad-op")
+  | ["dpathl", b] =>
+    match bytesOf? b with
+    | some bs =>
+      match Enc.decodePathLRaw bs with
+      | some (l, v, u) => some (s, "ok " ++ toString l ++ " " ++ natToHex v ++ " " ++ toString u)
+      | none => some (s, "err")
+    | none => some (s, "bad-op")
+  | ["enode", "L", v] =>
+    match hexToNat? v with
+    | some v => some (s, bytesStr (Enc.encodeBlob (.leaf v)))
+    | none => some (s, "bad-op")
+  | ["enode", "B", l, r] =>
+    match hexToNat? l, hexToNat? r with
+    | some l, some r => some (s, bytesStr (Enc.encodeBlob (.bin l r)))
+    | _, _ => some (s, "bad-op")
+  | ["enode", "E", c, pl, pv] =>
+    match hexToNat? c, pl.toNat?, hexToNat? pv with
+    | some c, some pl, some pv =>
+      if pl > 255 ∨ pv ≥ 2 ^ pl then some (s, "bad-op") else some (s, bytesStr (Enc.encodeBlob (.edge c (natToPath pl pv))))
+    | _, _, _ => some (s, "bad-op")
+  | ["dnode", pl, ml, b] =>
+    match pl.toNat?, ml.toNat?, bytesOf? b with
+    | some pl, some ml, some bs =>
+      match Enc.decodeBlob bs pl ml with
+      | .ok (.leaf v) => some (s, "L:" ++ natToHex v)
+      | .ok (.bin l r) => some (s, "B:" ++ natToHex l ++ ":" ++ natToHex r)
+      | .ok (.edge c p) => some (s, "E:" ++ natToHex c ++ ":" ++ toString p.length ++ ":" ++ natToHex (pathNat p))
+      | .error e => some (s, "err:" ++ decErrStr e)
+    | _, _, _ => some (s, "bad-op")
+  | ["elnode", v, kids, hashes] =>
+    let kids? : Option (Option (Path × Path)) :=
+      if kids == "-" then some none else
+      match kids.splitOn ":" with
+      | [ll, lv, rl, rv] =>
+        match ll.toNat?, hexToNat? lv, rl.toNat?, hexToNat? rv with
+        | some ll, some lv, some rl, some rv =>
+          if ll > 255 ∨ rl > 255 ∨ lv ≥ 2 ^ ll ∨ rv ≥ 2 ^ rl then none else some (some (natToPath ll lv, natToPath rl rv))
+        | _, _, _, _ => none
+      | _ => none
+    let hashes? : Option (Option (Nat × Nat)) :=
+      if hashes == "-" then some none else
+      match hashes.splitOn ":" with
+      | [a, b] => match hexToNat? a, hexToNat? b with
+        | some a, some b => some (some (a, b))
+        | _, _ => none
+      | _ => none
+    match hexToNat? v, kids?, hashes? with
+    | some v, some k, some h => some (s, bytesStr (Enc.encodeLNode ⟨v, k, h⟩))
+    | _, _, _ => some (s, "bad-op")
+  | ["dlnode", b] =>
+    match bytesOf? b with
+    | some bs =>
+      match Enc.decodeLNode bs with
+      | .ok n =>
+        let k := match n.kids with
+          | none => "-"
+          | some (l, r) => toString l.length ++ ":" ++ natToHex (pathNat l) ++ ":" ++ toString r.length ++ ":" ++ natToHex (pathNat r)
+        let h := match n.hashes with
+          | none => "-"
+          | some (a, b) => natToHex a ++ ":" ++ natToHex b
+        some (s, "ok " ++ natToHex n.value ++ " " ++ k ++ " " ++ h)
+      | .error e => some (s, "err:" ++ ldecErrStr e)
+    | none => some (s, "bad-op")
+  | ["ldump", id] =>
+    match id.toNat? with
+    | some id =>
+      match s.legacy.find? (·.1 == id) with
+      | some (_, t) =>
+        let es := (t.store.toArray.qsort (fun a b =>
+          a.1.length < b.1.length || (a.1.length == b.1.length && pathNat a.1 < pathNat b.1))).toList
+        let root := match t.rootKey with
+          | none => "R:-"
+          | some k => "R:" ++ pathStr k
+        some (s, " ".intercalate (root :: es.map (fun e =>
+          "N:" ++ pathStr e.1 ++ ":" ++ termStr e.2.value ++ ":" ++ optPathStr e.2.left ++ ":" ++ optPathStr e.2.right)))
+      | none => some (s, "bad-op")
+    | none => some (s, "bad-op")
+  | _ => none
+
 /-- requests of the migration model (`ModelMigrate.lean`) -/
 def stepM (s : St) (ws : List String) : St × String :=
+  match stepE s ws with
+  | some r => r
+  | none =>
   match ws with
   | ["mnew", id, lp] =>
     match id.toNat?, lp.toNat? with
